@@ -1,4 +1,5 @@
 import MxModel.Proofs.EditMachineOps2
+import MxModel.Proofs.StructMechRename
 /-!
 # Coverage for `del space`
 
@@ -302,5 +303,174 @@ theorem covers_delSpace {st st' : SM.St} (hi : Inv st) (hi' : Inv st') (p : Path
     left
     rw [hpe]
     simp
+
+
+/-! ## `rename_cells`
+
+In every target (the space of the cells, and the sub spaces whose `old` is their own or derived from
+it) the cells `old` is cleared as an object and the container notifies (`on_rename` / `on_del_cells`);
+then the sub spaces are re-derived.  From `renameCells_full`: only entries named `old` or `new`, in the
+space or its sub spaces, can differ. -/
+
+theorem mem_eq_of_defs {st st' : SM.St} (hi : Inv st) (hi' : Inv st') (hs : Shape st st') (a : Attr) (q : Path)
+    (n : String) (hdef : ∀ b, b ∈ q :: st.tail q → st'.defd a b n = st.defd a b n) :
+    st'.mem a q n = st.mem a q n := by
+  rw [hi'.mem_eq_derivation, hi.mem_eq_derivation, hs.tail q, hdef q (by simp),
+    firstDef_congr st st' a _ n (fun b hb => hdef b (List.mem_cons_of_mem _ hb))]
+
+/-- **`rename_cells`** -/
+theorem covers_renameCells {st st' : SM.St} (hi : Inv st) (hi' : Inv st') (p : Path) (old new : String)
+    (hop : st.renameCells kw p old new = some st') :
+    Covers t st st' (clearing kw t st st' (.renameCells p old new)) := by
+  obtain ⟨hs, hdef⟩ := renameCells_full kw st st' hi p old new hop
+  -- the targets, as the clearing lists them
+  have hT : ∀ q, q ∈ st.renameTargets p old ↔ q ∈ (p :: st.subs p).filter (fun q =>
+      match st.mem .cells q old with
+      | none => false
+      | some m => q == p || !m.derived || firstIs st .cells q old p) := by
+    intro q
+    unfold St.renameTargets firstIs
+    rfl
+  have hTsub : ∀ q, q ∈ st.renameTargets p old → q ∈ p :: st.subs p := fun q hq => (List.mem_filter.mp hq).1
+  have hpnew : st.mem .cells p new = none := by
+    have hacc : (st.renameCells kw p old new).isSome = true := by rw [hop]; rfl
+    rw [renameCells_isSome] at hacc
+    unfold St.acceptsRename at hacc
+    simp only [Bool.and_eq_true] at hacc
+    have hp : p ∈ st.ids := mem_ids_of_isSome st .cells p old hacc.1.1.1
+    have hpne : p ≠ [] := (hi.wf.tree p hp).1
+    have hcan := hacc.1.2
+    unfold St.canAdd at hcan
+    have : (p == []) = false := by simpa using hpne
+    simp only [this, Bool.false_eq_true, if_false] at hcan
+    cases hk : st.kindOf p new with
+    | some k => simp [hk] at hcan
+    | none => exact (kindOf_none st p _ hk).1
+  have hpold : (st.mem .cells p old).isSome = true := by
+    have hacc : (st.renameCells kw p old new).isSome = true := by rw [hop]; rfl
+    rw [renameCells_isSome] at hacc
+    unfold St.acceptsRename at hacc
+    simp only [Bool.and_eq_true] at hacc
+    exact hacc.1.1.1
+  have hrefs : ∀ q n, st'.mem .refs q n = st.mem .refs q n := by
+    intro q n
+    refine mem_eq_of_defs hi hi' hs .refs q n (fun b _ => ?_)
+    rw [hdef .refs b n, if_neg (fun h => nomatch h.1)]
+  have hother : ∀ q n, n ≠ old → n ≠ new → st'.mem .cells q n = st.mem .cells q n := by
+    intro q n h1 h2
+    refine mem_eq_of_defs hi hi' hs .cells q n (fun b _ => ?_)
+    rw [hdef .cells b n]
+    split
+    · simp [renamedDef, h1, h2]
+    · rfl
+  have houtside : ∀ q n, q ∉ p :: st.subs p → st'.mem .cells q n = st.mem .cells q n := by
+    intro q n hq
+    refine mem_eq_of_defs hi hi' hs .cells q n (fun b hb => ?_)
+    have hbT : b ∉ st.renameTargets p old := by
+      intro hbT
+      have := hTsub b hbT
+      simp only [List.mem_cons] at hb
+      rcases hb with rfl | hb
+      · exact hq this
+      · exact hi.wf.tail_avoids p q b hq hb this
+    rw [hdef .cells b n, if_neg (fun h => hbT h.2)]
+  -- membership of the clears of a target / of a re-derived sub space
+  have hcl_target : ∀ q, q ∈ st.renameTargets p old →
+      Clear.obj (t.cid q old) ∈ clearing kw t st st' (.renameCells p old new) ∧
+      Clear.ns (cellsOf t st q) ∈ clearing kw t st st' (.renameCells p old new) := by
+    intro q hq
+    have hq' := (hT q).mp hq
+    simp only [clearing, List.mem_append, List.mem_flatMap]
+    exact ⟨Or.inl ⟨q, hq', by simp⟩, Or.inl ⟨q, hq', by simp⟩⟩
+  have hcl_sub : ∀ k, k ∈ updateClears t st st' (st.subs p) → k ∈ clearing kw t st st' (.renameCells p old new) := by
+    intro k hk
+    simp only [clearing, List.mem_append]
+    exact Or.inr hk
+  -- a changed cells entry is in the space or a sub space, and named `old` or `new`
+  have hwhere : ∀ q n, st'.mem .cells q n ≠ st.mem .cells q n → q ∈ p :: st.subs p ∧ (n = old ∨ n = new) := by
+    intro q n hne
+    refine ⟨?_, ?_⟩
+    · apply Classical.byContradiction
+      intro hq
+      exact hne (houtside q n hq)
+    · apply Classical.byContradiction
+      intro hn
+      simp only [not_or] at hn
+      exact hne (hother q n hn.1 hn.2)
+  refine ⟨?_, ?_, fun q x hne => absurd (hrefs q x) hne, fun q x hne => absurd (hrefs q x) hne⟩
+  · intro q x hm hne
+    obtain ⟨a', y, hdiff⟩ := nsAt_changed t q (hs.childNames q) hne
+    have hne' : st'.mem a' q y ≠ st.mem a' q y := fun h => hdiff (by rw [h])
+    cases a' with
+    | refs => exact absurd (hrefs q y) hne'
+    | cells =>
+      obtain ⟨hq, _⟩ := hwhere q y hne'
+      by_cases hqT : q ∈ st.renameTargets p old
+      · exact touchedBy_of_ns (hcl_target q hqT).2 (mem_cellsOf t st q x hm)
+      · have hqs : q ∈ st.subs p := by
+          simp only [List.mem_cons] at hq
+          rcases hq with rfl | hq
+          · exfalso
+            apply hqT
+            rw [hT]
+            refine List.mem_filter.mpr ⟨by simp, ?_⟩
+            cases hmm : st.mem .cells q old with
+            | none => rw [hmm] at hpold; cases hpold
+            | some m => simp
+          · exact hq
+        exact touchedBy_of_ns (hcl_sub _ (mem_updateClears_ns_cells t hqs hdiff)) (mem_cellsOf t st q x hm)
+  · intro q x hm hne
+    obtain ⟨hq, hx⟩ := hwhere q x hne
+    by_cases hqT : q ∈ st.renameTargets p old
+    · rcases hx with rfl | rfl
+      · exact clearedBy_of_obj (hcl_target q hqT).1
+      · -- the cells `new` of a target: `p` has none; a sub space's own one stays, a derived one is re-derived
+        have hqp : q ≠ p := by
+          intro e
+          rw [e, hpnew] at hm; cases hm
+        have hqs : q ∈ st.subs p := by
+          have := hTsub q hqT
+          simp only [List.mem_cons] at this
+          exact this.resolve_left hqp
+        cases hmm : st.mem .cells q x with
+        | none => rw [hmm] at hm; cases hm
+        | some m =>
+          cases hd : m.derived with
+          | true => exact clearedBy_of_obj (hcl_sub _ (mem_updateClears_obj t hqs hmm hd))
+          | false =>
+            exfalso
+            apply hne
+            rw [hmm]
+            refine own_same hi' hmm hd ?_
+            rw [hdef .cells q x, if_pos ⟨rfl, hqT⟩]
+            unfold renamedDef
+            by_cases hxo : x = old
+            · -- `old = new`: the entry named `old` is the target's own and is renamed to itself
+              subst hxo
+              exfalso
+              rw [hpnew] at hpold; cases hpold
+            · rw [if_neg hxo, if_pos rfl, if_pos hm]
+    · have hqs : q ∈ st.subs p := by
+        simp only [List.mem_cons] at hq
+        rcases hq with rfl | hq
+        · exfalso
+          apply hqT
+          rw [hT]
+          refine List.mem_filter.mpr ⟨by simp, ?_⟩
+          cases hmm : st.mem .cells q old with
+          | none => rw [hmm] at hpold; cases hpold
+          | some m => simp
+        · exact hq
+      cases hmm : st.mem .cells q x with
+      | none => rw [hmm] at hm; cases hm
+      | some m =>
+        cases hd : m.derived with
+        | true => exact clearedBy_of_obj (hcl_sub _ (mem_updateClears_obj t hqs hmm hd))
+        | false =>
+          exfalso
+          apply hne
+          rw [hmm]
+          refine own_same hi' hmm hd ?_
+          rw [hdef .cells q x, if_neg (fun h => hqT h.2)]
 
 end MxModel.Edit
